@@ -35,6 +35,19 @@
  *   vs-fpack          unpack == column of the shadow table; pack(unpack(buf)) == buf; return codes
  *   vs-overrun        (ASan) buffers are malloc'ed to the exact size
  *   vs-packvs         vpackvs returns SUCCEED, *size is inside the buffer, the sentinel bytes behind the record are intact
+ *
+ *   unpackvs <hex> => <interlace> <nvertices> <ivsize> <type:isize:off:order:namehex,...|-> <vsnamehex> <vsclasshex> <extag> <exref>
+ *                     <version> <more> <flags> <findex:atag:aref,...|->  |  refused
+ *                                           the static vunpackvs (vio.c) on ARBITRARY bytes: a record packed by vpackvs, intact, truncated,
+ *                                           bit-flipped, with a 16-bit field forced to an extreme value, a bad nattrs, or noise.  vunpackvs has
+ *                                           no length check: the record sits between two PROT_NONE guard regions (at the end of the readable
+ *                                           window; at its start when len < 5) and the call runs in a forked child, so that an access outside
+ *                                           buf[0..len) kills the child; a dead child and a FAIL return are printed as `refused`.  Records on
+ *                                           which the C code has SILENT undefined behaviour are not emitted (vh_walk_ok: a length prefix that
+ *                                           is negative as int16 moves the cursor backwards; a vsname / vsclass longer than the 65-byte array
+ *                                           is copied over the following members).  The Lean driver runs the TRANSLATED vunpackvs
+ *                                           (H4.Gen.Fn.Vio3) on the same bytes and answers with ITS result (the hand model H4.Format.vunpackvs
+ *                                           is a stricter reader; where it accepts the record its header must agree: ` MODEL=` otherwise).
  */
 #ifdef VS_MUT_VRW
 #include VS_MUT_VRW
@@ -44,8 +57,16 @@
 #ifdef VS_MUT_VSFLD
 #include VS_MUT_VSFLD
 #endif
+#ifdef VS_MUT_VIO
+#include VS_MUT_VIO
+#else
+#include "hdf/src/vio.c" /* for the static vunpackvs; the library's vio.o is then not linked */
+#endif
 #include "hdf.h"
 #include "hk.h"
+#include <sys/mman.h>
+#include <sys/wait.h>
+#include <fcntl.h>
 
 #define MAXF 8
 typedef struct { char name[16]; int32 type; int order; int tsz; int esize; int isize; } fld_t;
@@ -558,6 +579,107 @@ static void gen_cname(char *dst, int maxlen)
     for (int i = 0; i < l; i++) dst[i] = (char)(hk_chance(90) ? hk_range('a', 'z') : hk_range(1, 255));
     dst[l] = 0;
 }
+/* ------------------------------------------------------------------ vunpackvs on arbitrary bytes, between guard pages */
+enum { UG_GUARD = 1 << 20, UG_WIN = 1 << 17 };
+static uint8_t *ug_map;
+static int be16s(const uint8_t *b) { return (int16)(uint16)((b[0] << 8) | b[1]); }
+/* 0 when the C code would run into SILENT undefined behaviour on the way (see the header comment); the walk stops where the record ends */
+static int vh_walk_ok(const uint8_t *b, int len)
+{
+    if (len < 10) return 1;
+    if (be16s(b + len - 5) > 4) return 1;
+    int n = be16s(b + 8);
+    if (n < 0) return 1; /* FAIL */
+    long p = 10 + 8L * n;
+    for (int i = 0; i < n; i++) {
+        if (p + 2 > len) return 1;
+        int l = be16s(b + p);
+        if (l == -1) return 0;
+        if (l < -1) return 1; /* malloc refuses: FAIL */
+        p += 2 + l;
+    }
+    for (int w = 0; w < 2; w++) { /* vsname, vsclass */
+        if (p + 2 > len) return 1;
+        int l = be16s(b + p);
+        if (l < 0) return 0;
+        long avail = len - (p + 2), k = 0, lim = l < avail ? l : avail;
+        while (k < lim && b[p + 2 + k]) k++;
+        if (k > VSNAMELENMAX) return 0;
+        p += 2 + l;
+    }
+    return 1;
+}
+static void unpackvs_guarded(const uint8_t *rec, int len)
+{
+    if (!ug_map) {
+        ug_map = mmap(NULL, UG_GUARD + UG_WIN + UG_GUARD, PROT_NONE, MAP_PRIVATE | MAP_ANONYMOUS, -1, 0);
+        if (ug_map == MAP_FAILED || mprotect(ug_map + UG_GUARD, UG_WIN, PROT_READ | PROT_WRITE)) { hk_fail("vs-unpackvs-setup", "mmap"); ug_map = NULL; return; }
+    }
+    uint8_t *p = len >= 5 ? ug_map + UG_GUARD + UG_WIN - len : ug_map + UG_GUARD;
+    memcpy(p, rec, (size_t)len);
+    fflush(stdout);
+    pid_t pid = fork();
+    if (pid < 0) { hk_fail("vs-unpackvs-setup", "fork"); return; }
+    if (pid == 0) {
+        int dn = open("/dev/null", O_WRONLY);
+        if (dn >= 0) dup2(dn, 2);
+        VDATA *vs = VSIget_vdata_node();
+        int    res = vunpackvs(vs, p, len);
+        printf("T vs unpackvs "); hk_hex(rec, (size_t)len); printf(" => ");
+        if (res == FAIL) printf("refused");
+        else {
+            printf("%d %d %u ", (int)vs->interlace, (int)vs->nvertices, (unsigned)vs->wlist.ivsize);
+            if (vs->wlist.n <= 0 || !vs->wlist.type) fputs("-", stdout);
+            else for (int i = 0; i < vs->wlist.n; i++) {
+                printf("%s%d:%u:%u:%u:", i ? "," : "", (int)vs->wlist.type[i], vs->wlist.isize[i], vs->wlist.off[i], vs->wlist.order[i]);
+                hk_hex(vs->wlist.name[i], strlen(vs->wlist.name[i]));
+            }
+            putchar(' '); hk_hex(vs->vsname, strlen(vs->vsname)); putchar(' '); hk_hex(vs->vsclass, strlen(vs->vsclass));
+            printf(" %u %u %d %d %u ", vs->extag, vs->exref, (int)vs->version, (int)vs->more, (unsigned)vs->flags);
+            if (vs->nattrs <= 0 || !vs->alist) fputs("-", stdout);
+            else for (int i = 0; i < vs->nattrs; i++) printf("%s%d:%u:%u", i ? "," : "", (int)vs->alist[i].findex, vs->alist[i].atag, vs->alist[i].aref);
+        }
+        printf("\n");
+        fflush(stdout);
+        _exit(0);
+    }
+    int st = 0;
+    waitpid(pid, &st, 0);
+    if (WIFEXITED(st) && WEXITSTATUS(st) == 0) hk_stat("unpackvs_returned", 1);
+    else { printf("T vs unpackvs "); hk_hex(rec, (size_t)len); printf(" => refused\n"); hk_stat("unpackvs_outside_buf", 1); }
+}
+/* one mutation of a record that vpackvs wrote, then the guarded call */
+static void unpackvs_round(const uint8_t *rec0, int len0, int nattrs)
+{
+    static uint8_t b[8192];
+    if (len0 > (int)sizeof b) return;
+    int len = len0;
+    memcpy(b, rec0, (size_t)len);
+    switch ((int)hk_range(0, 7)) {
+        case 0: break; /* intact */
+        case 1: len = (int)hk_range(0, len); break; /* truncated anywhere */
+        case 2: for (int i = (int)hk_range(1, 3); i > 0 && len > 0; i--) b[hk_range(0, len - 1)] ^= (uint8_t)(1u << hk_range(0, 7)); break;
+        case 3: len = (int)hk_range(len > 12 ? len - 12 : 0, len);
+                if (len > 0 && hk_chance(50)) b[hk_range(0, len - 1)] ^= (uint8_t)(1u << hk_range(0, 7));
+                break;
+        case 4: len = (int)hk_range(0, 40); for (int i = 0; i < len; i++) b[i] = hk_chance(50) ? hk_byte() : (uint8_t)hk_range(0, 4); break; /* noise */
+        case 5: if (len >= 2) { /* a 16-bit field forced to an extreme value */
+                    static const unsigned X[] = {0xffff, 0x8000, 0x7fff, 0x0100, 0x0004, 0x0000, 0x0041};
+                    int at = (int)hk_range(0, len - 2) & ~1; unsigned x = X[hk_range(0, 6)]; b[at] = (uint8_t)(x >> 8); b[at + 1] = (uint8_t)x;
+                }
+                break;
+        case 6: { /* nattrs negative or too large for the record (the trailer is: … nattrs, 8 bytes per attribute, version, more, pad) */
+                    static const uint32_t NA[] = {0xffffffffu, 0x80000000u, 0x00000100u, 0x00010000u};
+                    int at = len - 5 - 8 * nattrs - 4;
+                    if (nattrs > 0 && at >= 0) { uint32_t x = NA[hk_range(0, 3)]; b[at] = (uint8_t)(x >> 24); b[at + 1] = (uint8_t)(x >> 16); b[at + 2] = (uint8_t)(x >> 8); b[at + 3] = (uint8_t)x; }
+                }
+                break;
+        default: if (len > 5) { int cut = (int)hk_range(1, 4); memmove(b + len - 5 - cut, b + len - 5, 5); len -= cut; } break; /* a stale tail */
+    }
+    if (!vh_walk_ok(b, len)) { hk_stat("unpackvs_skipped_silent_ub", 1); return; }
+    unpackvs_guarded(b, len);
+}
+
 static void packvs_rounds(void)
 {
     enum { MAXPF = 40, MAXPA = 6, PNAME = 130 };
@@ -610,6 +732,8 @@ static void packvs_rounds(void)
         hk_hex(pbuf, (size_t)size); printf("\n");
         for (int i = 0; i < 8; i++) if (pbuf[size + i] != 0xA5) { hk_fail("vs-packvs", "vpackvs wrote behind *size=%d (offset +%d)", (int)size, i); break; }
         hk_stat("packvs", 1);
+        /* the decoder on what the encoder wrote, and on mutations of it */
+        for (int j = (int)hk_range(2, 5); j > 0; j--) unpackvs_round(pbuf, (int)size, (v.flags & 1) ? v.nattrs : 0);
     }
 }
 
